@@ -1,6 +1,7 @@
 /- h3model: line-protocol driver of the Lean model (one op per line on stdin, one answer per line) -/
 import H3Model.OpsCore
 import H3Model.OpsTrav
+import H3Model.OpsPoly
 
 open H3 H3.Ops
 
@@ -14,7 +15,10 @@ def runLine (line : String) : String :=
     | none =>
       match opsTrav op args with
       | some r => r
-      | none => "skip"
+      | none =>
+        match opsPoly op args with
+        | some r => r
+        | none => "skip"
 
 partial def loop (hin : IO.FS.Stream) (hout : IO.FS.Stream) : IO Unit := do
   let line ← hin.getLine
